@@ -229,7 +229,8 @@ fn main() {
     for _ in 0..(if quick { 250 } else { 20000 }) {
         jobs.push(("garbage".into(), garbage(&mut ctx.rng)));
     }
-    jobs.extend(deep_texts());
+    // the 17000-local frame (D90) takes minutes per analysis on a debug build: thorough tier only
+    jobs.extend(deep_texts().into_iter().filter(|(l, _)| !quick || l != "long:locals17000"));
     // self-referential definitions through every type constructor; generic names with every type-argument count
     jobs.extend(infinite_type_texts());
     jobs.extend(arity_texts());
